@@ -141,6 +141,13 @@ Section Inv.
   Lemma Forall_Qj_snap cl lt : NoDup (ids_of cl) -> J sc c0 cl -> Forall (snap_of cl) lt -> Forall Qj lt.
   Proof. intros ND HJ F. eapply Forall_impl; [|exact F]. intros it. apply Qj_snap; assumption. Qed.
 
+  Lemma Forall_Qj_snap2 cl cl' lt : NoDup (ids_of cl) -> J sc c0 cl -> NoDup (ids_of cl') -> J sc c0 cl' ->
+    Forall (snap2 cl cl') lt -> Forall Qj lt.
+  Proof.
+    intros ND HJ ND' HJ' F. eapply Forall_impl; [|exact F].
+    intros it [H|H]; [exact (Qj_snap cl it ND HJ H)|exact (Qj_snap cl' it ND' HJ' H)].
+  Qed.
+
   Lemma Forall_Qj_noreq lt : Forall noreq lt -> Forall Qj lt.
   Proof. intros F. eapply Forall_impl; [|exact F]. apply Qj_noreq. Qed.
 
@@ -336,7 +343,7 @@ Section Inv.
     { (* dry-run: nothing changes *)
       assert (C : r_cl s' = c0).
       { destruct SO as [[_ C]|[[_ [_ C]]|[_ [D _]]]]; [congruence|congruence|discriminate]. }
-      split; [exact C|]. constructor; [exact I|]. rewrite C in SF.
+      split; [exact C|]. constructor; [exact I|]. rewrite C, I0 in SF. apply Forall_snap2_same in SF.
       eapply Forall_Qj_snap; [exact c0_nodup|apply J_c0|exact SF]. }
     destruct I0 as [A1 A2 A3 A4 A5 A6 A7 A8 A9].
     assert (NDtd : NoDup td) by (inversion A3; assumption).
@@ -345,7 +352,7 @@ Section Inv.
     assert (PEND : exists st0 u0, tv s i = Some (st0, APending, u0)) by (apply (L_pend _ _ _ _ Li); left; reflexivity).
     assert (TVi : tv s' i = Some (SApply, a, u)) by (exact (tv_self s s' _ ST)).
     assert (NS : Forall nonsc (IEv (EApply g i (ast_of a)) :: lt)).
-    { constructor; [exact I|]. eapply Forall_impl; [|exact SF]. intros it. apply nonsc_snap. }
+    { constructor; [exact I|]. eapply Forall_impl; [|exact SF]. intros it [X|X]; eapply nonsc_snap; exact X. }
     assert (FR : frame (r_cl s) (r_cl s') i).
     { destruct SO as [[_ C]|[[_ [_ C]]|[_ [_ [C _]]]]]; [rewrite C; apply frame_refl|rewrite C; apply frame_refl|exact C]. }
     destruct FR as [F1 [F2 [F3 F4]]].
@@ -361,7 +368,7 @@ Section Inv.
       eapply J_applied; [exact A5|exact C|exact Hi|apply A7; reflexivity]. }
     assert (ND' : NoDup (ids_of (r_cl s'))) by (apply F3; exact A1).
     split.
-    2:{ constructor; [exact I|]. eapply Forall_Qj_snap; eassumption. }
+    2:{ constructor; [exact I|]. eapply (Forall_Qj_snap2 (r_cl s) (r_cl s')); eassumption. }
     constructor.
     - exact ND'.
     - rewrite ST. apply (keys_set_status id Nat.eqb nat_eqb_spec). exact A2.
